@@ -2170,6 +2170,11 @@ func (d *Data) updateMaxLabel(v dvid.VersionID, label uint64) (changed bool, err
 	d.mlMu.Lock()
 	defer d.mlMu.Unlock()
 
+	// re-check under the write lock: another request may have raised the maximum since the read above
+	if curMax, found = d.MaxLabel[v]; found && curMax >= label {
+		changed = false
+		return
+	}
 	d.MaxLabel[v] = label
 	if err = d.persistMaxLabel(v); err != nil {
 		err = fmt.Errorf("updateMaxLabel of data %q: %v", d.DataName(), err)
@@ -2203,6 +2208,11 @@ func (d *Data) updateBlockMaxLabel(v dvid.VersionID, block *labels.Block) {
 	dvid.VerifPoint("yield:labelmap.updateBlockMaxLabel:after-read")
 	if changed {
 		d.mlMu.Lock()
+		// re-check under the write lock: another block may have raised the maximum since the read above
+		if prevMax, found := d.MaxLabel[v]; found && prevMax >= curMax {
+			d.mlMu.Unlock()
+			return
+		}
 		d.MaxLabel[v] = curMax
 		if err := d.persistMaxLabel(v); err != nil {
 			dvid.Errorf("updateBlockMaxLabel of data %q: %v\n", d.DataName(), err)
